@@ -3,7 +3,7 @@ EXTENDS Keys, TLC, Json, IOUtils, SequencesExt
 CONSTANTS M, KN
 Alphabet == {"A","B","C","D","E","F","G","a","b","c","d","e","f","g","H","#","x"}
 Strings(m) == UNION {[1..j -> Alphabet] : j \in 1..m}
-Cases == {[kind |-> "key", k |-> k] : k \in AllKeys \cup Strings(M) \cup {<<>>}} \cup      \* the empty string is a string too
+Cases == {[kind |-> "key", k |-> k] : k \in AllKeys \cup Strings(M) \cup {<<>>} \cup {k0 \o <<w>> : k0 \in AllKeys, w \in {"\n", " "}} \cup {<<w>> \o k0 : k0 \in {<<"C">>, <<"a">>}, w \in {"\n", " "}}} \cup      \* the empty string is a string too
          {[kind |-> "sig", i |-> i] : i \in -12..12} \cup
          {[kind |-> "after", k1 |-> k1, k2s |-> SetToSeq(AllKeys)] : k1 \in AllKeys} \cup
          {[kind |-> "step", k |-> k, n |-> n] : k \in AllKeys, n \in Names(KN)}
